@@ -525,6 +525,10 @@ class Env:
                 if const is not None and not const.value:
                     return True
                 continue
+            if "NOTSELF" in tags:
+                if a is not None and isinstance(a, ast.Name) and a.id == f.self_name:
+                    return True
+                continue
             if any(isinstance(t, tuple) and t and t[0] == "NOTIN" for t in tags):
                 vals = [t[1] for t in tags if isinstance(t, tuple) and t[0] == "NOTIN"][0]
                 if const is not None and any(const.value is v or (const.value == v and type(const.value) is type(v)) for v in vals):
